@@ -522,6 +522,62 @@ Section Restore.
         * intros r Hr. apply H2. apply Hkeep. exact Hr.
   Qed.
 
+  (* the same when some records name a resource that does not exist (they are skipped) *)
+  Definition ps_absent (m : ps_mem) (r : ps_obs) : Prop :=
+    exists name token ck, req (pso_pkt r) = Some (name, token, ck) /\ ps_find name m = None.
+
+  Lemma ps_obs_step_spec_absent : forall r m C, ps_absent m r -> ps_obs_step_spec r m C = (m, None, C).
+  Proof.
+    intros r m C (name & token & ck & Hreq & Hf). unfold ps_obs_step_spec.
+    destruct (negb (ps_beq (pso_proto r) (psc_proto c))); [reflexivity|].
+    destruct (negb (ps_beq (pso_listen r) (psc_listen c))); [reflexivity|].
+    rewrite Hreq, Hf. reflexivity.
+  Qed.
+
+  Theorem ps_obs_fold_present_g : forall O m C done,
+    (forall r, In r O -> ps_acceptable m r \/ ps_absent m r) -> ps_from m done ->
+    NoDup (map ps_ktok O) -> NoDup (map ps_kck O) ->
+    (forall r r', In r done -> In r' O -> ps_ktok r <> ps_ktok r' /\ ps_kck r <> ps_kck r') ->
+    let mf := fst (fst (ps_obs_fold ps_mem ps_obs_step_spec O m C)) in
+    (forall r, In r O -> ps_acceptable m r -> ps_present mf r) /\
+    (forall r, ps_present m r -> ps_present mf r).
+  Proof.
+    induction O as [|x O IH]; intros m C done Hacc Hfrom Hn1 Hn2 Hdone; cbn [ps_obs_fold fst snd].
+    - split; [intros r []|tauto].
+    - inversion Hn1 as [|? ? Hx1 Hn1']; subst. inversion Hn2 as [|? ? Hx2 Hn2']; subst.
+      destruct (Hacc x (or_introl eq_refl)) as [Hax|Habs].
+      + destruct (ps_obs_step_spec_new x m C done Hax Hfrom) as (Hpx & Hfrom' & Hkeep & Hacc').
+        { intros r' Hr'. apply (Hdone r' x Hr'). left; reflexivity. }
+        destruct (IH (fst (fst (ps_obs_step_spec x m C))) (snd (ps_obs_step_spec x m C)) (x :: done))
+          as [H1 H2].
+        * intros r Hr. destruct (Hacc r (or_intror Hr)) as [Ha|(name & token & ck & Hreq & Hf)].
+          -- left. apply Hacc'. exact Ha.
+          -- right. exists name, token, ck. split; [exact Hreq|].
+             destruct (ps_find name (fst (fst (ps_obs_step_spec x m C)))) eqn:E; [|reflexivity].
+             exfalso. assert (Hh : ps_has (fst (fst (ps_obs_step_spec x m C))) name)
+               by (unfold ps_has; rewrite E; discriminate).
+             apply ps_obs_step_spec_has in Hh. unfold ps_has in Hh. contradiction.
+        * exact Hfrom'.
+        * exact Hn1'.
+        * exact Hn2'.
+        * intros r r' [<-|Hr] Hr'.
+          -- split; intro E.
+             ++ apply Hx1. rewrite E. apply in_map. exact Hr'.
+             ++ apply Hx2. rewrite E. apply in_map. exact Hr'.
+          -- apply Hdone; [exact Hr|right; exact Hr'].
+        * split.
+          -- intros r [<-|Hr] Har; [apply H2; exact Hpx|apply H1; [exact Hr|apply Hacc'; exact Har]].
+          -- intros r Hr. apply H2. apply Hkeep. exact Hr.
+      + rewrite (ps_obs_step_spec_absent x m C Habs). cbn [fst snd].
+        destruct (IH m C done) as [H1 H2]; try assumption.
+        * intros r Hr. apply Hacc. right. exact Hr.
+        * intros r r' Hr Hr'. apply Hdone; [exact Hr|right; exact Hr'].
+        * split; [|exact H2]. intros r [<-|Hr] Har; [|apply H1; assumption].
+          exfalso. destruct Har as (_ & _ & n1 & t1 & k1 & rs & Hq & Hf1 & _).
+          destruct Habs as (n2 & t2 & k2 & Hq2 & Hf2). rewrite Hq in Hq2. inversion Hq2; subst.
+          rewrite Hf1 in Hf2. discriminate.
+  Qed.
+
   (* C17_restart_restores, observations: in a fresh process (no subscriptions yet) every stored
      observation whose resource exists is re-established with its session, token, cache key and
      request, provided the stored observations are pairwise different in (resource, session,
